@@ -97,7 +97,19 @@ impl StringPoolBuilder {
             ),
         };
         let mut lengths_and_refcounts = Vec::<(u32, u16)>::new();
-        while let Ok(length) = reader.read_u16::<LittleEndian>() {
+        loop {
+            // The pool ends where the stream ends; any other read error (a
+            // failure of the underlying reader) must be reported, not taken
+            // for the end of the pool.
+            let length = match reader.read_u16::<LittleEndian>() {
+                Ok(length) => length,
+                Err(error) => {
+                    if error.kind() == io::ErrorKind::UnexpectedEof {
+                        break;
+                    }
+                    return Err(error);
+                }
+            };
             let mut length = length as u32;
             let mut refcount = reader.read_u16::<LittleEndian>()?;
             if length == 0 && refcount > 0 {
